@@ -317,7 +317,132 @@ def _function_ast(program, s):
     ast.increment_lineno(tree, s['line'] - 1)
     return tree.body[0]
 
+_PGNS_ENV = {}
+def _pgns_module_env(program):
+    """module-level names of pgns.py for the interpreter (parsed once, only when a dispatcher has to be interpreted)"""
+    import os
+    from . import absint as A
+    path = os.path.join(program.pkgdir, 'pgns.py')
+    if path not in _PGNS_ENV:
+        _PGNS_ENV.clear()
+        tree = ast.parse(open(path, encoding='utf-8').read())
+        env = A.ModuleEnv(tree)
+        from .rules_help import helpers
+        for k, v in helpers(program).items():        # `from .utils import *`
+            env.funcs.setdefault(k, v)
+        _PGNS_ENV[path] = env
+    return _PGNS_ENV[path]
+
+def disp_interpreted(program, grp, s):
+    """the dispatcher run by the abstract interpreter on concrete payloads: one per database definition (its match fields set, everything else at
+    a value nobody compares with), every deviation of one matched field to another constant of the group / of the function and to a value that
+    is none of them, and every pair of definitions merged; with further payload bits set.  The variant function it calls (or None) is compared
+    with the database's first-match rule.  -> ('equal', n) | ('diff', text) | ('unknown', why)"""
+    from . import absint as A
+    try:
+        fn = _function_ast(program, s)
+    except (SyntaxError, IndexError) as u:
+        return ('unknown', str(u))
+    menv = _pgns_module_env(program)
+    fields = {}
+    for d in grp.defs:
+        for f in d.match_fields:
+            fields.setdefault((f.bit_offset, f.bit_length), set()).add(f.match)
+    consts_in_fn = {n.value for n in ast.walk(fn) if isinstance(n, ast.Constant) and isinstance(n.value, int) and not isinstance(n.value, bool)}
+    cand = {}
+    for (o, ln), vals in fields.items():
+        vs = set(vals) | {c for c in consts_in_fn if 0 <= c < (1 << ln)}
+        other = next((v for v in range(1, 1 << ln) if v not in vs), None)
+        cand[(o, ln)] = sorted(vs) + ([other] if other is not None else [])
+    top = max([o + ln for (o, ln) in fields] or [0])
+    def compose(assign):
+        raw = 0b1011 << (top + 3)          # other payload bits are set: nothing but the match fields may decide
+        for (o, ln), v in assign.items():
+            raw |= v << o
+        return raw
+    def base_for(d, start=None):
+        a = dict(start) if start else {k: cand[k][-1] for k in fields}
+        for f in d.match_fields:
+            a[(f.bit_offset, f.bit_length)] = f.match
+        return a
+    assigns = []
+    for d in grp.defs:
+        b = base_for(d)
+        assigns.append(b)
+        for k in fields:
+            for v in cand[k]:
+                b2 = dict(b); b2[k] = v
+                assigns.append(b2)
+        for e_ in grp.defs:
+            if e_ is not d:
+                assigns.append(base_for(e_, base_for(d)))
+    assigns.append({k: cand[k][-1] for k in fields})
+    seen = set()
+    def expected(vals):
+        for d in grp.defs:
+            if d.fallback:
+                continue
+            if all(vals[(f.bit_offset, f.bit_length)] == f.match for f in d.match_fields):
+                return decoder_name(d)
+        return decoder_name(grp.fallback) if grp.fallback else None
+    n = 0
+    for a in assigns:
+        # overlapping match fields: the later assignment wins in compose(); read the fields back from the payload
+        raw = compose(a)
+        if raw in seen:
+            continue
+        seen.add(raw)
+        vals = {(o, ln): (raw >> o) & ((1 << ln) - 1) for (o, ln) in fields}
+        called = []
+        def hook(it, call, env):
+            f = call.func
+            nm = f.id if isinstance(f, ast.Name) else None
+            target = None
+            if nm and nm.startswith('decode_pgn_') and nm not in env:
+                target = nm
+            elif nm and isinstance(env.get(nm), A.AOpaque) and str(env[nm].what).startswith('decode_pgn_'):
+                target = env[nm].what
+            elif nm and isinstance(env.get(nm), A.AFunc) and env[nm].fn.name.startswith('decode_pgn_') and env[nm].fn.name != fn.name:
+                target = env[nm].fn.name
+            elif not nm and isinstance(f, (ast.Subscript, ast.Call, ast.IfExp, ast.Attribute)):
+                try:
+                    v_ = it.expr(f, env)
+                except A.Unknown:
+                    v_ = None
+                if isinstance(v_, A.AFunc) and v_.fn.name.startswith('decode_pgn_') and v_.fn.name != fn.name:
+                    target = v_.fn.name
+            if target is not None:
+                args = [it.expr(x, env) for x in call.args]
+                called.append((target, args))
+                return A.AObj(called=target)
+            return NotImplemented
+        try:
+            it = A.Interp(hook=hook, module=menv, skip=lambda c: False)
+            r = it.call_function(fn, [A.AInt(raw)])
+        except (A.Unknown, A.RaiseSignal, RecursionError, AttributeError, TypeError, KeyError) as u:
+            return ('unknown', f"dispatcher not interpretable: {type(u).__name__}: {u}"[:200])
+        want = expected(vals)
+        if want is None:
+            okv = r is None and not called
+        else:
+            okv = isinstance(r, A.AObj) and r.attrs.get('called') == want and len(called) == 1 and len(called[0][1]) == 1 and isinstance(called[0][1][0], A.AInt) and called[0][1][0].v == raw
+        n += 1
+        if not okv:
+            desc = ', '.join(f"bits {o}..{o + ln - 1} = {v}" for (o, ln), v in sorted(vals.items()))
+            gd = (r.attrs.get('called') if isinstance(r, A.AObj) else repr(r))
+            return ('diff', f"payload with {desc}: database selects {want}, the dispatcher selects {gd}")
+    return ('equal', n)
+
 def disp_semantic(program, grp, s):
+    r = _disp_semantic_table(program, grp, s)
+    if r[0] == 'unknown':
+        r2 = disp_interpreted(program, grp, s)
+        if r2[0] != 'unknown':
+            return r2
+        return ('unknown', r[1] + ' / ' + r2[1])
+    return r
+
+def _disp_semantic_table(program, grp, s):
     """the dispatcher as a decision table.  Its guards consult the payload only through bit-field comparisons with constants (the utils helpers it
     calls are inlined), so the payload space falls into finitely many classes: per bit field, each constant it is compared with (by the database or
     by the dispatcher) and one value that is none of them.  Every class is evaluated (teval on the extracted terms) and compared with the database's
@@ -540,11 +665,19 @@ def disp(chk, program, rule='DISP'):
             continue
         s = g.funcs[fname]
         ndisp += 1
+        exp_arms = [d for d in grp.defs if not d.fallback]
         if 'unsupported' in s:
-            chk.unknown(rule, fname, s['unsupported'], PG, s['line'])
+            # the guard extractor cannot walk it: interpreted instead
+            sem = disp_interpreted(program, grp, s)
+            if sem[0] == 'equal':
+                chk.ok(rule, f"{fname}::decision-table", file=PG, line=s['line'], func=fname, detail=f"{sem[1]} payloads select the database's definition (dispatcher interpreted)")
+                narms += len(exp_arms)
+            elif sem[0] == 'diff':
+                chk.violation(rule, f"{fname}::decision-table", file=PG, line=s['line'], func=fname, expected="the database's first-match rule", found=sem[1])
+            else:
+                chk.unknown(rule, fname, s['unsupported'] + ' / ' + sem[1], PG, s['line'])
             continue
         P, arms, final = dispatcher_arms(s)
-        exp_arms = [d for d in grp.defs if not d.fallback]
         chk = _Pending()
         chk.check(len(arms) == len(exp_arms), rule, f"{fname}::arm-count", file=PG, line=s['line'], func=fname,
                   expected=len(exp_arms), found=len(arms))
